@@ -304,6 +304,7 @@ class Harness(object):
         self.hooks = {"A": 0, "B": 0}
         self.keep = []
         self.asyncs = {}                    # label -> (side, AsyncResult)
+        self.ended = {}                     # label -> how many times its callback was told "the connection ended"
         self.outcomes = {}                  # label -> [text]
         self.close_results = {"A": [], "B": []}
         self.labels = 0
@@ -383,11 +384,18 @@ class Harness(object):
         self.rec.log(t="api_ret", side=side, what=what, closed=bool(conn.closed), hooks=self.hooks[side])
 
     def delivered(self, label, ar):
-        """callback of an asynchronous result: its response has been dispatched"""
+        """callback of an asynchronous result: its response has been dispatched - or (the repaired `_cleanup`) the
+        connection has ended and the result was completed with EOFError: that is recorded apart (`ended`), it is not
+        something the requester was GIVEN on asking (wait / value), which is what `outcomes` holds"""
         try:
             v = ar.value
             self.outcomes.setdefault(label, []).append("v%d" % self.val_of(v))
         except BaseException as ex:  # noqa
+            side = self.asyncs[label][0] if label in self.asyncs else None
+            conn = self.conn.get(side) if side else None
+            if isinstance(ex, EOFError) and conn is not None and conn.closed and not hasattr(ex, "_remote_tb"):
+                self.ended[label] = self.ended.get(label, 0) + 1
+                return
             self.outcomes.setdefault(label, []).append(self.classify(ex))
 
     def raw_request(self, side, handler, *args):
@@ -420,7 +428,8 @@ class Harness(object):
             expired = bool(ar.expired)          # its own timeout has passed already: wait() will not serve at all
         except Exception:  # noqa
             expired = False
-        self.rec.log(t="api_wait", side=side, label=label, own_closed=stream.closed, expired=expired)
+        self.rec.log(t="api_wait", side=side, label=label, own_closed=stream.closed, expired=expired,
+                     ready_before=bool(getattr(ar, "_is_ready", False)))
         try:
             ar.wait()
             if label not in self.outcomes:
@@ -686,7 +695,19 @@ class Harness(object):
         for side in "AB":
             conn = self.conn[side]
             tables = table_sizes(conn)
+            unready, expired_now = [], []
+            for label, (sd, ar) in self.asyncs.items():
+                if sd != side:
+                    continue
+                try:
+                    if ar._ttl.expired() and not ar._is_ready:
+                        expired_now.append(label)
+                    elif not ar._is_ready:
+                        unready.append(label)
+                except Exception:  # noqa
+                    pass
             snap[side] = dict(closed=bool(conn is not None and conn.closed), hooks=self.hooks[side], tables=tables,
+                              ended=dict(self.ended), unready=unready, expired_now=expired_now,
                               close_results=list(self.close_results[side]),
                               outcomes=dict((k, list(v)) for k, v in self.outcomes.items()))
         self.snap[n] = snap
@@ -1099,8 +1120,8 @@ def abstract(h, side):
                 continue
             toks.append("w%d:%se" % (s, "T" if e.get("expired") else "F"))
             last_r = len(toks) - 1
-            if e["own_closed"] and not e.get("expired"):
-                skip_poll_fail += 1
+            if e["own_closed"] and not e.get("expired") and not e.get("ready_before"):
+                skip_poll_fail += 1          # (a result already completed by the end is not served for: no poll follows)
             continue
         if t == "api_timeout":
             toks.append("to")
@@ -1128,7 +1149,7 @@ def abstract(h, side):
 
 
 MODEL_RE = re.compile(r"acc=(\d+)/(\d+) closed=(\w) inClose=(\w) chan=(\w) hook=(\d+) cleaned=(\w) tables=(\w) "
-                      r"pending=(\S+) blocked=(\S+) out=(\S+) raised=(\S+)$")
+                      r"pending=(\S+) blocked=(\S+) out=(\S+) raised=(\S+)(?: endready=(\S+))?$")
 
 
 def parse_model(line):
@@ -1138,7 +1159,8 @@ def parse_model(line):
     lst = lambda s: [] if s == "-" else s.split(",")  # noqa
     return dict(acc=int(m.group(1)), total=int(m.group(2)), closed=m.group(3), inClose=m.group(4), chan=m.group(5),
                 hook=int(m.group(6)), cleaned=m.group(7), tables=m.group(8), pending=lst(m.group(9)),
-                blocked=lst(m.group(10)), out=lst(m.group(11)), raised=lst(m.group(12)))
+                blocked=lst(m.group(10)), out=lst(m.group(11)), raised=lst(m.group(12)),
+                endready=lst(m.group(13) or "-"))
 
 
 RAISED_NAME = {"HookError": "user", "AttributeError": "attr", "DisconnectBoom": "hook", "StreamCloseError": "channel"}
@@ -1153,7 +1175,13 @@ def impl_view(h, side, n, ids):
                 out.append("%d:%s" % (ids[label], o))
     raised = [RAISED_NAME.get(r, r) for r in s["close_results"] if r]
     tables = "?" if s["tables"] is None else ("T" if sum(s["tables"]) == 0 else "F")
-    return dict(closed="T" if s["closed"] else "F", hook=s["hooks"], tables=tables, out=sorted(out), raised=raised)
+    # results completed by the end of the connection that their requester has not asked for yet, and those whose own
+    # timeout had passed (AsyncResult ignores the completion then: they stay "expired")
+    endready = sorted(str(ids[lb]) for lb in s.get("ended", {}) if lb in ids and lb.startswith(side.lower())
+                      and lb not in s["outcomes"])
+    expired = set(str(ids[lb]) for lb in s.get("expired_now", []) if lb in ids)
+    return dict(closed="T" if s["closed"] else "F", hook=s["hooks"], tables=tables, out=sorted(out), raised=raised,
+                endready=endready, expired=expired)
 
 
 def compare(h, side, n, ids, mline):
@@ -1174,6 +1202,8 @@ def compare(h, side, n, ids, mline):
     mod.append("out=" + ",".join(mout))
     impl.append("raised=" + ",".join(iv["raised"]))
     mod.append("raised=" + ",".join(pm["raised"]))
+    impl.append("endready=" + ",".join(iv["endready"]))
+    mod.append("endready=" + ",".join(sorted(x for x in pm["endready"] if x in visible and x not in iv["expired"])))
     if n == 2:
         impl.append("blocked=0 hang=%s" % ("T" if h.hang else "F"))
         mod.append("blocked=%d hang=F" % len(pm["blocked"]))
@@ -1466,7 +1496,7 @@ def run_real(transport, scenario):
             try:
                 if in_wait:
                     try:
-                        ar.wait()
+                        ar.value        # (wait + look at the result: a result completed by the end raises its EOFError here)
                         res["a_out"] = "v"
                     except EOFError:
                         res["a_out"] = "eof"
@@ -1498,7 +1528,7 @@ def run_real(transport, scenario):
         # the pending request, looked at afterwards (in a helper thread: it must not be able to hang the check)
         def w_body():
             try:
-                ar.wait()
+                ar.value        # (wait + look at the result: a result completed by the end raises its EOFError here)
                 res["wait_out"] = "v"
             except EOFError:
                 res["wait_out"] = "eof"
@@ -1676,7 +1706,7 @@ def run_real_fault(transport, scenario, fault):
             try:
                 if in_wait:
                     try:
-                        ar.wait()
+                        ar.value        # (wait + look at the result: a result completed by the end raises its EOFError here)
                         res["a_out"] = "v"
                     except EOFError:
                         res["a_out"] = "eof"
@@ -1705,7 +1735,7 @@ def run_real_fault(transport, scenario, fault):
 
         def w_body():
             try:
-                ar.wait()
+                ar.value        # (wait + look at the result: a result completed by the end raises its EOFError here)
                 res["wait_out"] = "v"
             except EOFError:
                 res["wait_out"] = "eof"
@@ -1788,7 +1818,7 @@ def run_real_threads(transport, scenario, fault=None):
 
         def waiter(i):
             try:
-                ars[i].wait()                                 # no expiry: only the end of the connection can release it
+                ars[i].value                                 # no expiry: only the end of the connection can release it
                 outs[i] = "v"
             except EOFError:
                 outs[i] = "eof"
@@ -1905,7 +1935,7 @@ def run_real_bg(transport, scenario):
 
         def w_body():
             try:
-                ar.wait()
+                ar.value        # (wait + look at the result: a result completed by the end raises its EOFError here)
                 outs[0] = "v"
             except EOFError:
                 outs[0] = "eof"
@@ -2119,6 +2149,14 @@ def oracle(h):
                     else "C11:raising-disconnect-hook-skips-cleanup" if h.hook_raises.get(side) \
                     else "C11:tables-not-cleared"
                 return ("side %s is closed but holds (local objects, proxies, callbacks) = %r" % (side, s["tables"]), sig)
+            if s["closed"] and s.get("unready"):
+                return ("side %s reports closed but the result(s) of %r, pending when it ended, are not ready (and not expired): "
+                        "`ready`/`error` stay False, add_callback functions never run, `while not ar.ready:` never ends"
+                        % (side, s["unready"][:4]), "C11:pending-result-never-completed-after-end")
+            twice = [lb for lb, k in s.get("ended", {}).items() if k > 1]
+            if twice:
+                return ("side %s: the callback of %r was told about the end %d times" % (side, twice[:3], s["ended"][twice[0]]),
+                        "C11:end-callback-twice")
         # the last close() of the after-phase is a second close: a no-op
         if side == "A" or h.b_finished():
             if not s2["closed"]:
